@@ -328,8 +328,19 @@ def gen_specs(prop: str, rng, tier: str, widened=False) -> list[dict]:
     r = rng.sub(f"tetri-batch/{prop}/{'w' if widened else 'n'}")
     kind = {"C10": "mix", "C12": "deadline"}[prop]
     specs = corpus()
+    n_corpus = len(specs)
     while len(specs) < n:
         specs.append(gen_world(r, r.choice(["mix", "deadline"]) if widened else kind))
+    # flavour (harness/planners/_worlds.py): the real TaskGraph is built in a random, mostly non-topological
+    # declaration order in a share of the worlds (own random stream: the base worlds stay what they were)
+    from harness.planners import _worlds
+
+    fr = rng.sub(f"tetri-batch/{prop}/{'w' if widened else 'n'}/flavours")
+    for spec in specs[n_corpus:]:
+        if fr.random() < 0.35:
+            _worlds.shuffle_decl(spec, fr)
+        if fr.random() < 0.3:
+            _worlds.gen_warmup(spec, fr)  # the same scheduler object was invoked before, on an unrelated world
     return specs
 
 
